@@ -465,7 +465,7 @@ pub fn check_system(spec: &SysSpec) -> (Vec<Fail>, Info) {
 }
 
 pub fn meta(rep: &mut Report) {
-    rep.rule = "systems = S1 (full pools incl. div/rem) + S3(3) of skeletons K1..K7 (thorough: + S2(4)) plus hand-built shapes and an array-input system; every sub-expression node of the system (state and input symbols included) is a root; cone_of_influence / _init / _comb are called on each. Oracle: (a) only declared inputs/states; (b) set-equal to an independent dependency search (children; state -> init for full+init, state -> next for full); (c) for every symbol x outside the reported cone and every pair of reference executions differing only in x's free choices (x an input: its value at every step; x an init-less state: its initial value; x a next-less state: its value after every step) the root has the same value at every step 0..3 (full), at step 0 (init), under every valuation of all states and inputs (comb). All initial states, all inputs at every step, all values of next-less states are enumerated (pair-state search on a table of all node values). evaluations = cone calls; distinct_nontrivial = distinct systems in which at least one root's cone is a strict subset of the symbols (a perturbation ran); states = pair-states visited by the perturbation search; transitions = perturbed steps compared".into();
+    rep.rule = "systems = S1 (full pools incl. div/rem) + S3(3) of skeletons K1..K7 (thorough: S1 + S3(4) + S2(32) + S3(5) of K1/K3/K4/K7) plus hand-built shapes and an array-input system; every sub-expression node of the system (state and input symbols included) is a root; cone_of_influence / _init / _comb are called on each. Oracle: (a) only declared inputs/states; (b) set-equal to an independent dependency search (children; state -> init for full+init, state -> next for full); (c) for every symbol x outside the reported cone and every pair of reference executions differing only in x's free choices (x an input: its value at every step; x an init-less state: its initial value; x a next-less state: its value after every step) the root has the same value at every step 0..3 (full), at step 0 (init), under every valuation of all states and inputs (comb). All initial states, all inputs at every step, all values of next-less states are enumerated (pair-state search on a table of all node values). evaluations = cone calls; distinct_nontrivial = distinct systems in which at least one root's cone is a strict subset of the symbols (a perturbation ran); states = pair-states visited by the perturbation search; transitions = perturbed steps compared".into();
     rep.assumptions = vec![
         "executions are not restricted by the constraints (the cone is a property of the functions)".into(),
         "a state with an init expression has no free initial value; a state with a next function has no free later value".into(),
